@@ -467,7 +467,7 @@ def run(ctx):
             add(a, b, 12 if quick else 40, "sweep")
     ctx.cov["jobs_candidate"] = sum(1 for j in jobs if j["kind"] == "candidate")
     ctx.cov["jobs_sweep"] = sum(1 for j in jobs if j["kind"] == "sweep")
-    out = run_jobs(ctx, hbin, jobs, "main", nproc=4 if quick else 6, timeout=400 if quick else 1500)
+    out = run_jobs(ctx, hbin, jobs, "main", nproc=4 if quick else 6, timeout=900 if quick else 2400)
     ran = len(re.findall(r"VERIF-JOB-END ", out))
     nodrv = sorted(set(re.findall(r"VERIF-JOB-NODRIVER \d+ (\S+ \S+)", out)))
     ctx.cov["traces_validated_against_impl"] = ran
